@@ -94,7 +94,7 @@ func forms(op refpkg.Op, step int, cur int) (out []string) {
 		out = append(out, fmt.Sprintf("(%sdefvar %s %q)", cl, op.N, token(op, step)))
 	case "defun":
 		out = append(out, fmt.Sprintf("(%sdefun %s () %q)", cl, op.N, token(op, step)))
-	case "makunbound", "fmakunbound":
+	case "makunbound", "fmakunbound", "unintern":
 		out = append(out, fmt.Sprintf("(%s%s %s%s%s)", cl, op.K, q1, op.N, q2))
 	}
 	return
@@ -474,7 +474,7 @@ func runHistory(c Case) (res *h.Result) {
 			return fail(i, msg)
 		}
 		// classification
-		retract := op.K == "unuse" || op.K == "unexport" || op.K == "makunbound" || op.K == "fmakunbound"
+		retract := op.K == "unuse" || op.K == "unexport" || op.K == "makunbound" || op.K == "fmakunbound" || op.K == "unintern"
 		for p := 0; p < c.NP; p++ {
 			for _, n := range names {
 				v := m.View(p, n)
@@ -555,6 +555,9 @@ func genOp(rt *rapid.T, np int, focus []string) refpkg.Op {
 			op.K = "fmakunbound"
 		case op.K == "undefine":
 			op.K = "makunbound"
+			if rapid.IntRange(0, 3).Draw(rt, "unintern") == 0 {
+				op.K = "unintern" // documented as "unbinds the symbol in the package"
+			}
 		}
 	}
 	return op
